@@ -164,12 +164,81 @@ def run(ctx, res):
         if k < 3:
             res.sample({"phase": sc["phase"], "fabric": sc["fabric"], "regime": sc["regime"], "phi": phi, "M": sc["Mob"], "n": sc["n"],
                         "minerals_in_bulk": nm, "multi_vs_scaled_single_maxdiff": d})
+    _bulk_histories(ctx, res, rng)
     # (v) module-level state
     if repr(core.DefaultParams()) != defaults_before:
         res.violation("hidden_state:DefaultParams", "DefaultParams defaults changed during the run", {})
     st_after = M.StiffnessTensors()
     if not (np.array_equal(st_before.olivine, st_after.olivine) and np.array_equal(st_before.enstatite, st_after.enstatite)):
         res.violation("hidden_state:StiffnessTensors", "StiffnessTensors defaults changed during the run", {})
+
+
+def _bulk_histories(ctx, res, rng):
+    """histories of the bulk driver that ordinary use rarely produces: the minerals handed over as a one-shot iterable, a bulk
+    update that fails half-way and is retried after the caller has repaired the cause, model times far from the origin. In each
+    case every mineral must end up exactly like an identical mineral driven alone through the calls it actually received
+    (same inputs, same code: bit-identical)."""
+    M = impl._minerals
+    core = impl._core
+
+    def twins(sc, nm):
+        scs = []
+        for j in range(nm):
+            ph, fa = impl.PHASE_FABRICS[int(rng.integers(0, 6))]
+            scs.append(dict(sc, phase=int(ph), fabric=int(fa), tex_seed=int(rng.integers(0, 2**31)), regime=4))
+        return [solver.build_mineral(s_) for s_ in scs], [solver.build_mineral(s_) for s_ in scs]
+
+    def same(a, b):
+        return (len(a.fractions) == len(b.fractions) and all(np.array_equal(x, y) for x, y in zip(a.orientations + a.fractions, b.orientations + b.fractions)))
+
+    for k in range(6 if not ctx["thorough"] else 30):
+        mode = ["reversed_iterator", "generator", "failed_then_retried", "far_time_origin", "filter_object", "failed_then_retried"][k % 6]
+        sc = solver.make_scenario(rng, k, nmax=8, regimes=(4,), fields=["const", "time"])
+        sc["debug_log"] = False
+        nm = int(rng.integers(2, 5))
+        bulk, alone = twins(sc, nm)
+        params = solver.params_of(sc)
+        fld = sc["field"]
+        rep = dict(solver.scenario_json(sc), mode=mode, minerals=nm)
+        res.evaluations += 1
+        res.count("bulk_history:" + mode)
+        res.nontrivial(("bulk_history", mode, k, sc["tex_seed"]))
+        if mode == "far_time_origin":
+            T0 = float(rng.choice([5e3, -3e4, 1e6]))
+            fld.torig = T0
+            ts = T0 + float(rng.choice([0.02, 0.5])) * np.arange(sc["n_updates"] + 1)
+        else:
+            ts = solver.times_of(sc)
+        F = np.array(sc["F0"], float)
+        fail_at = int(rng.integers(1, nm)) if mode == "failed_then_retried" else None
+        for u, (a_, b_) in enumerate(zip(ts[:-1], ts[1:])):
+            Fin = F.copy()
+            handed = {"reversed_iterator": lambda: reversed(bulk[::-1]), "generator": lambda: (m_ for m_ in bulk),
+                      "filter_object": lambda: filter(None, bulk)}.get(mode, lambda: bulk)()
+            if fail_at is not None and u == len(ts) - 2:
+                # the caller's mistake: one mineral sits in a regime that is not supported; the call raises, the caller repairs and retries
+                bulk[fail_at].regime = core.DeformationRegime.sliding_dislocation
+                try:
+                    M.update_all(bulk, params, Fin.copy(), fld, (a_, b_, fld.pos))
+                    res.violation("bulk_history:failed_update_returned", "update_all with a mineral in an unsupported regime returned normally", rep)
+                except ValueError:
+                    pass
+                for j in range(fail_at):        # the minerals before the failing one received this interval once already
+                    alone[j].update_orientations(params, Fin.copy(), fld, (a_, b_, fld.pos))
+                bulk[fail_at].regime = core.DeformationRegime.matrix_dislocation
+            F = np.array(M.update_all(handed, params, Fin.copy(), fld, (a_, b_, fld.pos)))
+            for m_ in alone:
+                Fa = m_.update_orientations(params, Fin.copy(), fld, (a_, b_, fld.pos))
+            if not np.array_equal(F, np.asarray(Fa)):
+                res.violation(f"bulk_history:{mode}:F", f"update_all returned another deformation gradient than the last mineral driven alone (update {u}): "
+                              f"max diff {float(np.abs(F - np.asarray(Fa)).max()):.3e}", rep)
+                break
+        for j, (a, b) in enumerate(zip(bulk, alone)):
+            if not same(a, b):
+                res.violation(f"bulk_history:{mode}:mineral_differs_from_one_driven_alone",
+                              f"mineral {j} of {nm} after the bulk history has {len(a.fractions)} snapshots / other values than the identical mineral driven "
+                              f"alone through the same calls ({len(b.fractions)} snapshots)", rep)
+                break
 
 
 def replay(data):
